@@ -106,7 +106,15 @@ def analyse_map(fx, fn_path, group_ty, n_params, a0, rep, label):
     # normal form: private helpers the map was factored into are inlined at MIR level (so that a reference to one of
     # the map's inputs is still recognisable as such inside what used to be a helper)
     import inline as INL
-    body = INL.inlined(fx, fn_path, lambda q: INL.is_private_helper(fx, q)) or fx.body(fn_path)
+    def is_helper(q):
+        # a function of this crate the map was factored into, private or exported: being exported does not change
+        # what it computes for the map (trait-impl methods -- the stages themselves and the group law -- are not
+        # helpers: the transfer function below gives them their meaning)
+        if INL.is_private_helper(fx, q):
+            return True
+        f = fx.fn(q)
+        return bool(f is not None and 'mir' in f and f.get('kind') in ('Fn', 'AssocFn') and not f.get('impl_trait') and q != fn_path)
+    body = INL.inlined(fx, fn_path, is_helper) or fx.body(fn_path)
     violations = []
     events = []
 
@@ -266,7 +274,7 @@ def analyse_map(fx, fn_path, group_ty, n_params, a0, rep, label):
         violations.append(('TS', 'unmodelled-call', 'call to %s touches a map intermediate; its effect on the stage word is not modelled' % target, where))
         return False
 
-    I = exp.Interp(fx, 'none', extra_transfer=transfer, max_paths=32, inline=lambda q: INL.is_private_helper(fx, q))
+    I = exp.Interp(fx, 'none', extra_transfer=transfer, max_paths=32, inline=is_helper)
     I.fork_inlined = True
     I.body_override = {fn_path: body}
     args = [('byref', ('input', i + 1)) for i in range(n_params)]
